@@ -263,6 +263,11 @@ def run(ctx):
     fits = ctx.repo.mod('fits')
     ctx.guarded('C08-D1', 'fits.py:total_least_squares@layout', d_layout, ctx, fits)
     ctx.guarded('C08-D5', 'fits.py:fit_lin', d_fit_lin, ctx, fits)
+    # non-linear models fitted with least_squares obey the same implicit-function rule: its layout / sign / residual obligations are part of C08
+    from . import C07
+    ctx.rule('C08-D6', 'least_squares: implicit-function layout, sign and residual definitions (shared analysis with C07)')
+    ctx.guarded('C08-D6', 'fits.py:least_squares@layout', C07.d1_layout, ctx, fits, 'C08-D6', 'C08-D6', 'C08-D6')
+    ctx.guarded('C08-D6', 'fits.py:least_squares@chisq', C07.d6_chisq, ctx, fits, 'C08-D6')
     ctx.floor('C08 obligations', len(ctx.obs), 28)
 
 
